@@ -41,7 +41,7 @@ def eval_task(task):
         world = gen_trash_world(rng, cmd, cfg.get("profile", "mixed"), real_clock=rc)
         if cfg.get("tweak"):
             world = cfg["tweak"](world, rng)
-    r = readcheck.evaluate(world, driver(), want_states=cfg.get("states", False), oracles=cfg["oracles"],
+    r = readcheck.evaluate(world, driver(), want_states=cfg.get("states", False), oracles=cfg["oracles"], plan=cfg.get("plan"),
                            interrupt_sweep=cfg.get("interrupt_sweep", 0) if task.get("i", 0) % 3 == 0 else 0)
     out = {"key": (world["cmd"], repr(sorted(world.get("opts", {}).items())), tuple(world.get("args", [])), world.get("stdin"),
                    world["cwd"], len(world["nodes"]), tuple(world["mounts"])),
